@@ -74,8 +74,8 @@ PROPS = {
         [K("k3::S-Define"), K("k3::S-Define-clauses"), K("k3::S-Repeat"), K("k3::S-UseExternal"), K("k3::S-MacroUseInternal"),
          K("k3::S-Repeat-reserved"), K("k3::S-Define-reserved"), K("k3::S-Define-econtext"),
          K("k3::S-OnError-Define"), K("k3::S-GlobalInLocal"), FRESH] +
-        [K("utils.py::Scope." + m) for m in ("get", "__getitem__", "__contains__", "get_name", "set_global")],
-        ["utils.Scope.copy / __iter__ (dict-subclass construction is outside the subset)",
+        [K("utils.py::Scope." + m) for m in ("get", "__getitem__", "__contains__", "get_name", "set_global", "copy")],
+        ["utils.Scope.__iter__ / keys / items (generators over two dict layers)",
          "after a nested tal:repeat that reuses the outer loop's name, repeat[name] still "
          "refers to the exhausted inner item (DESIGN D15; not derived by a check)"]),
     "C06": k3prop(
